@@ -11,6 +11,11 @@ package serializer
 // errProducer callbacks are unconstrained: they may return nil.
 
 /*@
+global itemCalls Int        -- how often ReadSequenceOfObjects invoked its item deserializer (ghost)
+
+-- the collection length denoted by a prefix of type lt at a[o..]
+specfun lenprefix(a IntArr, o Int, lt Int) Int = lt == 200 ? sel(a, o) : (lt == 201 ? le16(a, o) : le32(a, o))
+
 type Deserializer
   invariant 0 <= self.offset && self.offset <= len(self.src)
 
@@ -147,6 +152,39 @@ func Deserializer.WithValidation
   modifies d.err
   ensures r0 == d && inv(d)
 
+func numSize
+  requires typeof(data) == typeid(bool) || typeof(data) == typeid(int8) || typeof(data) == typeid(uint8) || typeof(data) == typeid(*bool) || typeof(data) == typeid(*int8) || typeof(data) == typeid(*uint8) || typeof(data) == typeid(int16) || typeof(data) == typeid(*int16) || typeof(data) == typeid(uint16) || typeof(data) == typeid(*uint16) || typeof(data) == typeid(int32) || typeof(data) == typeid(*int32) || typeof(data) == typeid(uint32) || typeof(data) == typeid(*uint32) || typeof(data) == typeid(int64) || typeof(data) == typeid(*int64) || typeof(data) == typeid(uint64) || typeof(data) == typeid(*uint64) || typeof(data) == typeid(float32) || typeof(data) == typeid(*float32) || typeof(data) == typeid(float64) || typeof(data) == typeid(*float64)
+  requires data != nil
+  ensures r0 == 1 || r0 == 2 || r0 == 4 || r0 == 8
+  ensures typeof(data) == typeid(*int8) || typeof(data) == typeid(*uint8) || typeof(data) == typeid(*bool) ==> r0 == 1
+  ensures typeof(data) == typeid(*int16) || typeof(data) == typeid(*uint16) ==> r0 == 2
+  ensures typeof(data) == typeid(*int32) || typeof(data) == typeid(*uint32) || typeof(data) == typeid(*float32) ==> r0 == 4
+  ensures typeof(data) == typeid(*int64) || typeof(data) == typeid(*uint64) || typeof(data) == typeid(*float64) ==> r0 == 8
+
+-- dest must be a non-nil pointer to one of the supported number types (documented API; a caller
+-- error otherwise, not an input error)
+func Deserializer.ReadNum
+  requires d != nil && inv(d) && dest != nil
+  requires typeof(dest) == typeid(*int8) || typeof(dest) == typeid(*uint8) || typeof(dest) == typeid(*int16) || typeof(dest) == typeid(*uint16) || typeof(dest) == typeid(*int32) || typeof(dest) == typeid(*uint32) || typeof(dest) == typeid(*int64) || typeof(dest) == typeid(*uint64) || typeof(dest) == typeid(*float32) || typeof(dest) == typeid(*float64)
+  requires typeof(dest) == typeid(*int8) ==> unbox(*int8, dest) != nil
+  requires typeof(dest) == typeid(*uint8) ==> unbox(*uint8, dest) != nil
+  requires typeof(dest) == typeid(*int16) ==> unbox(*int16, dest) != nil
+  requires typeof(dest) == typeid(*uint16) ==> unbox(*uint16, dest) != nil
+  requires typeof(dest) == typeid(*int32) ==> unbox(*int32, dest) != nil
+  requires typeof(dest) == typeid(*uint32) ==> unbox(*uint32, dest) != nil
+  requires typeof(dest) == typeid(*int64) ==> unbox(*int64, dest) != nil
+  requires typeof(dest) == typeid(*uint64) ==> unbox(*uint64, dest) != nil
+  requires typeof(dest) == typeid(*float32) ==> unbox(*float32, dest) != nil
+  requires typeof(dest) == typeid(*float64) ==> unbox(*float64, dest) != nil
+  callback errProducer(e) (r)
+  modifies d.offset, d.err, cells(int64), cells(float64)
+  ensures r0 == d && inv(d) && d.src == old(d.src) && d.offset >= old(d.offset)
+  ensures old(d.err) != nil ==> d.offset == old(d.offset) && d.err == old(d.err)
+  ensures d.offset != old(d.offset) && typeof(dest) == typeid(*uint8) ==> d.offset == old(d.offset) + 1 && *unbox(*uint8, dest) == d.src[old(d.offset)]
+  ensures d.offset != old(d.offset) && typeof(dest) == typeid(*uint16) ==> d.offset == old(d.offset) + 2 && *unbox(*uint16, dest) == le16(elems(d.src), off(d.src) + old(d.offset))
+  ensures d.offset != old(d.offset) && typeof(dest) == typeid(*uint32) ==> d.offset == old(d.offset) + 4 && *unbox(*uint32, dest) == le32(elems(d.src), off(d.src) + old(d.offset))
+  ensures d.offset != old(d.offset) && typeof(dest) == typeid(*uint64) ==> d.offset == old(d.offset) + 8 && *unbox(*uint64, dest) == le64(elems(d.src), off(d.src) + old(d.offset))
+
 func Deserializer.ReadSequenceOfObjects
   requires d != nil && inv(d)
   requires lenType == SeriLengthPrefixTypeAsByte || lenType == SeriLengthPrefixTypeAsUint16 || lenType == SeriLengthPrefixTypeAsUint32
@@ -154,10 +192,14 @@ func Deserializer.ReadSequenceOfObjects
   callback errProducer(e) (r)
   callback itemDeserializer(b) (n, err)
     ensures err == nil ==> 0 <= n && n <= len(b)          -- what serix.decode* and every generated Deserialize promise
+    ghost at return: itemCalls = itemCalls + 1
   callback arrayElementValidator(index, next) (verr)      -- the validator closures only touch their own captured state
-  modifies d.offset, d.err
+  modifies d.offset, d.err, ghost(itemCalls)
   loop 1 invariant inv(d) && d.offset >= old(d.offset) && d.src == old(d.src)
   ensures r0 == d && inv(d) && d.src == old(d.src) && d.offset >= old(d.offset)
+  ensures old(d.err) != nil ==> itemCalls == old(itemCalls)
+  -- a length field outside the validated bounds never drives the item loop
+  ensures bitand(deSeriMode, DeSeriModePerformValidation) > 0 && ((arrayRules.Min != 0 && lenprefix(elems(d.src), off(d.src) + old(d.offset), lenType) < arrayRules.Min) || (arrayRules.Max != 0 && lenprefix(elems(d.src), off(d.src) + old(d.offset), lenType) > arrayRules.Max)) ==> itemCalls == old(itemCalls)
 
 func ArrayRules.CheckBounds
   requires ar != nil
